@@ -41,6 +41,7 @@ func c06Configs() []c06Cfg {
 		{Name: "1/h5/default", Powers: []int64{10}, Initial: 5, ChainID: "c", MaxBytes: 22020096, EvMaxBytes: 1048576},
 		{Name: "30,1,1,1/h1/small", Powers: []int64{30, 1, 1, 1}, Initial: 1, ChainID: "verif-c06-f", MaxBytes: 3000, EvMaxBytes: 1000},
 		{Name: "20,15,10,10/h1/small", Powers: []int64{20, 15, 10, 10}, Initial: 1, ChainID: "verif-c06-g", MaxBytes: 3000, EvMaxBytes: 1000},
+		{Name: "5x1/h1/small", Powers: []int64{1, 1, 1, 1, 1}, Initial: 1, ChainID: "verif-c06-h", MaxBytes: 3000, EvMaxBytes: 1000}, // total 5: two thirds is not an integer, floor(2t/3) = 3 signers are not enough
 		// thorough only from here
 		{Name: "1,2,3,4/h1/small", Powers: []int64{1, 2, 3, 4}, Initial: 1, ChainID: long, MaxBytes: 3000, EvMaxBytes: 1000},
 		{Name: "2x10/h5/small", Powers: []int64{10, 10}, Initial: 5, ChainID: "verif-c06-c", MaxBytes: 3000, EvMaxBytes: 1000},
@@ -51,7 +52,7 @@ func c06Configs() []c06Cfg {
 	if vr.Thorough() {
 		return all
 	}
-	return all[:6]
+	return all[:7]
 }
 
 func c06Styles() []c06Style {
@@ -187,7 +188,7 @@ func TestVerifC06Block(t *testing.T) {
 		menus         []int
 		nCfg, nStyles int
 	}
-	quickPhase := c06Phase{"quick space", []int{c06QuickMenu, c06QuickMenu, 5}, 6, 6}
+	quickPhase := c06Phase{"quick space", []int{c06QuickMenu, c06QuickMenu, 5}, 7, 6}
 	phases := []c06Phase{quickPhase}
 	if vr.Thorough() {
 		phases = append(phases, c06Phase{"extension", []int{len(c06Menu), len(c06Menu), 9, 4}, len(cfgs), len(styles)})
